@@ -215,19 +215,23 @@ def interruption_features(obs):
     prev_cmds = []
     closed = False
     nonrew = False
+    helper_inflight = False
     for it in info["interruptions"]:
         hi = it["hook_index"]
         if not it.get("rewindable", True):
             nonrew = True
         user = [h["msg"].command for h in obs.hook[:hi] if id(h["msg"]) in obs.plog.msg_ids]
         prev_cmds.append(user[-1] if user else None)
+        if 0 < hi <= len(obs.hook) and id(obs.hook[hi - 1]["msg"]) not in obs.plog.msg_ids and not it.get("rewindable", True):
+            helper_inflight = True  # a message of the engine's own suspension helper plan (wait_for, ...) was in flight
         if "close_run" in _cmds_since_checkpoint(obs, hi):
             closed = True
     return {
         "close_run_since_checkpoint": closed,
-        # the message in flight at the interruption is not in the replay cache: it is a
-        # non-replayable command, or it was executed while the plan was marked non-rewindable
-        "interrupted_at_nonreplayable": nonrew or any(c in NON_REPLAYABLE for c in prev_cmds if c),
+        # the message in flight at the interruption is a command that is never put in the replay cache
+        "interrupted_at_nonreplayable": helper_inflight or any(c in NON_REPLAYABLE for c in prev_cmds if c),
+        # the interruption took effect while the plan was marked non-rewindable
+        "interrupted_in_nonrewindable_region": nonrew,
         "prev_cmds": ",".join(str(c) for c in prev_cmds),
     }
 
@@ -506,8 +510,18 @@ def _causes(case, obs):
 
     causes = []
     stages = case.get("stages", [])
+    # a request from another thread takes effect when its coroutine changes the state; if the plan had
+    # already run to completion by then, the plan ended normally and the request is not what ended it
+    late = {
+        {"aborting": "abort", "stopping": "stop", "halting": "halt"}[s[0]]
+        for s, m in zip(obs.states, obs.state_meta)
+        if s[0] in ("aborting", "stopping", "halting") and s[1] == "running" and m.get("plan_done") and obs.plog.returned
+    }
     for r in obs.foreign:
         if r["label"] in TERMINATORS and r.get("state") == "returned":
+            if r["label"] in late:
+                causes.append(("ambiguous", None, r))
+                continue
             causes.append((r["label"], None, r))
     for ci, c in enumerate(obs.calls):
         if c["do"] in TERMINATORS and c.get("outcome") in ("return", "raise") and not c.get("auto"):
